@@ -47,6 +47,8 @@ type vfC07Case struct {
 	RWQ      bool
 	Presence bool
 	NoEmit   bool   // subjects subscribe without EmitJoinLeave: nothing may be emitted at all
+	BatchSize    int // per-channel batching of the observed channel (0/0 = off); MaxDelay is always set when on, so
+	BatchDelayMs int // that everything pending is flushed before the observer's frames are judged
 	Modes    [2]int // per slot: 0 client command, 1 Client.Subscribe, 2 connect-time first, then Client.Subscribe
 	Steps    []vfC07Step
 }
@@ -76,7 +78,7 @@ func (c vfC07Case) String() string {
 	for i, s := range c.Steps {
 		st[i] = s.String()
 	}
-	return fmt.Sprintf("proto=%s rwq=%v presence=%v noEmit=%v modes=%v steps=[%s]", c.Proto, c.RWQ, c.Presence, c.NoEmit, c.Modes, strings.Join(st, " "))
+	return fmt.Sprintf("proto=%s rwq=%v presence=%v noEmit=%v batch{size=%d delay=%dms} modes=%v steps=[%s]", c.Proto, c.RWQ, c.Presence, c.NoEmit, c.BatchSize, c.BatchDelayMs, c.Modes, strings.Join(st, " "))
 }
 
 func vfC07Gen(rt *rapid.T) vfC07Case {
@@ -85,6 +87,10 @@ func vfC07Gen(rt *rapid.T) vfC07Case {
 	c.RWQ = rapid.Bool().Draw(rt, "rwq")
 	c.Presence = rapid.IntRange(0, 3).Draw(rt, "presence") > 0
 	c.NoEmit = rapid.IntRange(0, 7).Draw(rt, "noEmit") == 0
+	if rapid.Bool().Draw(rt, "batching") {
+		c.BatchDelayMs = rapid.SampledFrom([]int{50, 400}).Draw(rt, "bdelay")
+		c.BatchSize = rapid.SampledFrom([]int{0, 2, 3}).Draw(rt, "bsize")
+	}
 	for i := range c.Modes {
 		c.Modes[i] = rapid.SampledFrom([]int{0, 0, 0, 1, 1, 2}).Draw(rt, "mode")
 	}
@@ -201,7 +207,17 @@ func vfC07Run(t *testing.T, cs vfC07Case, out *vfC07Out, isKnown func(string) bo
 		var emMu sync.Mutex
 		var emissions []vfC07Emit
 
-		w, err := vfNewWorld(Config{}, func(w *vfWorld) {
+		cfg := Config{}
+		if cs.BatchDelayMs > 0 {
+			bc := ChannelBatchConfig{MaxSize: int64(cs.BatchSize), MaxDelay: time.Duration(cs.BatchDelayMs) * time.Millisecond}
+			cfg.GetChannelBatchConfig = func(c string) ChannelBatchConfig {
+				if c == "ch" {
+					return bc
+				}
+				return ChannelBatchConfig{}
+			}
+		}
+		w, err := vfNewWorld(cfg, func(w *vfWorld) {
 			w.node.SetPresenceManager(&vfC07Presence{inner: w.node.presenceManager, add: func(ch, id string) error {
 				if sl := slotOf(id); sl != nil {
 					w.Gates.Pass(fmt.Sprintf("padd:%d", sl.idx))
